@@ -468,6 +468,10 @@ class TimeTriggeredPlanValidator(engines.engine.Engine, mixins.PlanValidatorMixi
 
         if not open_interval:
             yield before_time, trace[before_time]
+        elif equal_time == before_time and start != end:
+            # left-open interval with no happening at its start: the state before
+            # start is still in effect right after start
+            yield before_time, trace[before_time]
         if equal_time != before_time and equal_time != end:
             yield equal_time, trace[equal_time]
         for x in inside_indexes:
